@@ -1,7 +1,8 @@
 /-
-EPA, the initial polytope: `norm_vector`, orientation of the four faces built from the simplex
-rows as they come, the invariant for an outward-wound tetrahedron, and the as-is behaviour of
-`fix_ccw_normal_direction`.
+EPA, the initial polytope: `norm_vector`, orientation of the four faces `buildFaces` (rows as
+they come), the orientation step of `_initialize_from_simplex` (`initFaces_oriented`), and
+`fix_ccw_normal_direction` now (`fixCcw`) and before the upstream repair
+(`fixCcw_asIs_before_fix`).
 -/
 import D3.Proofs.EpaExit
 
@@ -11,6 +12,8 @@ namespace Epa
 /-- `⟨(B−A)×(C−A), D−A⟩` : the four as-is faces ABC, ACD, ADB, BDC are wound outward iff this
 is negative -/
 def orient (A B C D : V) : ℝ := V3.dot (V3.cross (B - A) (C - A)) (D - A)
+
+theorem simplexOrient_eq (A B C D : V) : simplexOrient A B C D = orient A B C D := rfl
 
 /-- exchanging two rows flips the orientation: of the 24 row orders of a tetrahedron exactly 12
 are wound outward -/
@@ -225,21 +228,54 @@ theorem barycentric (A B C D x : V) :
   simp only [nABC, orient, V3.cross, V3.dot_def, V3.sub_x, V3.sub_y, V3.sub_z]
   refine ⟨?_, ?_, ?_, ?_⟩ <;> ring
 
-/-! ### `fix_ccw_normal_direction` as the code executes it -/
+/-! ### the oriented construction of `_initialize_from_simplex` -/
 
-/-- when the flip condition holds the as-is code returns `(b, b, c)` with the negated normal:
-vertex `a` is gone (the swap goes through numpy views) -/
-theorem fixCcwAsIs_flip {bias : ℝ} {f : Face ℝ} (h : V3.dot f.a f.n + bias < 0) :
-    fixCcwAsIs bias f = ⟨f.b, f.b, f.c, -f.n⟩ := by
-  unfold fixCcwAsIs; rw [if_pos h]
+theorem initFaces_of_pos {A B C D : V} (h : 0 < orient A B C D) :
+    initFaces A B C D = buildFaces A C B D := by
+  unfold initFaces; rw [simplexOrient_eq, if_pos h]
 
-theorem fixCcwFixed_flip {bias : ℝ} {f : Face ℝ} (h : V3.dot f.a f.n + bias < 0) :
-    fixCcwFixed bias f = ⟨f.b, f.a, f.c, -f.n⟩ := by
-  unfold fixCcwFixed; rw [if_pos h]
+theorem initFaces_of_not_pos {A B C D : V} (h : ¬ 0 < orient A B C D) :
+    initFaces A B C D = buildFaces A B C D := by
+  unfold initFaces; rw [simplexOrient_eq, if_neg h]
+
+/-- whatever the row order, the faces are those of a simplex `(A', B', C', D')` with the same
+four points and `orient ≤ 0`; for a non-flat simplex `orient < 0` (wound outward) -/
+theorem initFaces_oriented (A B C D : V) :
+    (initFaces A B C D = buildFaces A B C D ∧ orient A B C D ≤ 0) ∨
+    (initFaces A B C D = buildFaces A C B D ∧ orient A C B D < 0) := by
+  by_cases h : 0 < orient A B C D
+  · right; exact ⟨initFaces_of_pos h, by rw [orient_swap12]; linarith⟩
+  · left; exact ⟨initFaces_of_not_pos h, not_lt.mp h⟩
+
+theorem OriginInside.swap12 {A B C D : V} {la lb lc ld : ℝ} (h : OriginInside A B C D la lb lc ld) :
+    OriginInside A C B D la lc lb ld := by
+  obtain ⟨hs, hx, hy, hz⟩ := h
+  exact ⟨by linarith, by linarith, by linarith, by linarith⟩
+
+/-! ### `fix_ccw_normal_direction`, now and before the upstream repair -/
+
+/-- when the flip condition holds the code swaps vertices 0 and 1 and negates the normal -/
+theorem fixCcw_flip {bias : ℝ} {f : Face ℝ} (h : V3.dot f.a f.n + bias < 0) :
+    fixCcw bias f = ⟨f.b, f.a, f.c, -f.n⟩ := by
+  unfold fixCcw; rw [if_pos h]
+
+/-- before the repair the result was `(b, b, c)` with the negated normal: vertex `a` was gone
+(the swap went through numpy views) -/
+theorem fixCcw_asIs_before_fix_flip {bias : ℝ} {f : Face ℝ} (h : V3.dot f.a f.n + bias < 0) :
+    fixCcw_asIs_before_fix bias f = ⟨f.b, f.b, f.c, -f.n⟩ := by
+  unfold fixCcw_asIs_before_fix; rw [if_pos h]
 
 theorem fixCcw_keep {bias : ℝ} {f : Face ℝ} (h : ¬ V3.dot f.a f.n + bias < 0) :
-    fixCcwAsIs bias f = f ∧ fixCcwFixed bias f = f := by
-  unfold fixCcwAsIs fixCcwFixed; rw [if_neg h, if_neg h]; exact ⟨rfl, rfl⟩
+    fixCcw bias f = f ∧ fixCcw_asIs_before_fix bias f = f := by
+  unfold fixCcw fixCcw_asIs_before_fix; rw [if_neg h, if_neg h]; exact ⟨rfl, rfl⟩
+
+/-- the repaired winding repair keeps the three vertices of the face -/
+theorem fixCcw_verts_perm (bias : ℝ) (f : Face ℝ) :
+    (faceVerts (fixCcw bias f)).Perm (faceVerts f) := by
+  unfold fixCcw
+  split
+  · simp only [faceVerts]; exact List.Perm.swap _ _ _
+  · exact List.Perm.refl _
 
 end Epa
 end D3
